@@ -1643,7 +1643,7 @@ func ruleReaderClosedChannelsSelected(c *Ctx, rule string) {
 		return ok && r.is("Client", "decCh")
 	}
 	n := 0
-	check := func(fn *ssa.Function, ch ssa.Value, pos token.Pos, selected bool) {
+	check := func(fn *ssa.Function, at ssa.Instruction, ch ssa.Value, pos token.Pos, selected bool) {
 		f, _ := chanClass(ch)
 		if f == nil {
 			return
@@ -1658,6 +1658,28 @@ func ruleReaderClosedChannelsSelected(c *Ctx, rule string) {
 			}
 		}
 		n++
+		// …and the event is signalled only when the command succeeded: the
+		// wait must come after the command's own successful Wait
+		gfl := gateFlow(fn, facts{})
+		okWait := false
+		if fs, reach := gfl.at(at); reach {
+			for _, fact := range fs.list() {
+				if strings.HasPrefix(fact, "ok:") && strings.HasSuffix(fact, ".Wait") {
+					okWait = true
+				}
+			}
+		}
+		// only events of a command (a field of a …Command struct)
+		ownerCmd := false
+		if nm := ownerOfField(p, f); nm != nil && strings.HasSuffix(strings.ToLower(nm.Obj().Name()), "command") {
+			ownerCmd = true
+		}
+		if !ownerCmd {
+			okWait = true
+		}
+		c.check(okWait, rule, fmt.Sprintf("%s: <-%s after the command's success", fnKey(fn), f.Name()), pos,
+			"the receive is reached only after the command's Wait returned nil",
+			fmt.Sprintf("%s is closed only when the command succeeded, but it is waited for before (or regardless of) the command's own Wait: when the server answers NO/BAD the event never comes and, the connection being alive, nothing else ends the wait", f.Name()))
 		key := fmt.Sprintf("%s: <-%s", fnKey(fn), f.Name())
 		c.check(selected, rule, key, pos,
 			"the receive is a select that also watches the read goroutine's termination (decCh)",
@@ -1671,7 +1693,7 @@ func ruleReaderClosedChannelsSelected(c *Ctx, rule string) {
 			switch x := i.(type) {
 			case *ssa.UnOp:
 				if x.Op == token.ARROW {
-					check(fn, x.X, x.Pos(), false)
+					check(fn, x, x.X, x.Pos(), false)
 				}
 			case *ssa.Select:
 				if !x.Blocking {
@@ -1685,7 +1707,7 @@ func ruleReaderClosedChannelsSelected(c *Ctx, rule string) {
 				}
 				for _, st := range x.States {
 					if st.Dir == types.RecvOnly && !decCh(st.Chan) {
-						check(fn, st.Chan, st.Pos, watch)
+						check(fn, x, st.Chan, st.Pos, watch)
 					}
 				}
 			}
